@@ -32,7 +32,7 @@ TCfg == /\ Consume("tcfg")
         /\ sel' = -1 /\ selFlow' = 0 /\ selAddr' = 0 /\ traceSel' = 0 /\ showFlows' = FALSE /\ frozen' = FALSE
         /\ privacy' = E.privacy0 /\ flowCounts' = {} /\ pc' = "tick"
 
-TEnd == Consume("end") /\ ~E.panic /\ UNCHANGED vars
+TEnd == Consume("end") /\ UNCHANGED vars
 \* a watchdog record appended by the driver (a run that was abandoned and is not in the log)
 THang == Consume("hang") /\ UNCHANGED vars
 
